@@ -108,6 +108,20 @@ def run_case(case):
 				act = ('caller index array modified', index.tolist())
 			show = lambda r: (r[0], [x.tolist() for x in r[1]][:6]) if r[0] == 'ok' else ((r[0], r[1].tolist()) if r[0] == 'one' else r)
 			return {'ok': bool(ok and ok_meta), 'expected': show(exp), 'actual': show(act) if act[0] in ('ok', 'one', 'err') else act}
+		if kind == 'indexgrid':
+			# the complete grid of slices on ONE collection object (every start/stop/step combination, forwards and backwards)
+			coll = _mk(case['coll'], plain, ks, tmp)
+			rng = [None, 0, 1, -1, 2, -2, 3, n - 1, n, -n, n + 1, -n - 1, 7]
+			steps = [None, 1, 2, -1, -2, 3, -3, n or 1, -(n or 1), 7, -7]
+			cnt = 0
+			for a, b, c in itertools.product(rng, rng, steps):
+				res = coll[slice(a, b, c)]
+				exp = plain[slice(a, b, c)]
+				got = [np.asarray(x) for x in res]
+				cnt += 1
+				if len(got) != len(exp) or not all(np.array_equal(p_, q_) for p_, q_ in zip(exp, got)) or res.kmerspec != ks or len(res) != len(exp):
+					return {'ok': False, 'expected': {'slice': [a, b, c], 'items': [x.tolist() for x in exp][:6]}, 'actual': [x.tolist() for x in got][:6]}
+			return {'ok': True, 'expected': f'{cnt} slices like a list', 'actual': 'ok'}
 		if kind == 'mutate':
 			sl = SignatureList(list(plain), ks)
 			ref = list(plain)
@@ -213,6 +227,9 @@ def cases(tier, seed):
 				yield {'kind': 'index', 'coll': coll, 'n': n, 'index': {'t': rnd.choice(['list', 'array']), 'dt': rnd.choice(['i1', 'i2', 'i4', 'i8', 'u1', 'u8']),
 				       'v': [rnd.randrange(-n - 1, n + 1) if rnd.random() < .9 else rnd.randrange(0, n + 2) for _ in range(m)]}}
 				yield {'kind': 'index', 'coll': coll, 'n': n, 'index': {'t': 'array', 'dt': 'bool', 'v': [rnd.random() < .5 for _ in range(rnd.choice([n, n, n + 1, max(n - 1, 0)]))]}}
+	for n in (0, 1, 2, 4, 5, 6):
+		for coll in colls:
+			yield {'kind': 'indexgrid', 'coll': coll, 'n': n, 'seed': n}
 	# narrow index dtypes on collections longer than the dtype's range
 	for coll in ('list', 'array'):
 		for n, dt in ((130, 'i1'), (200, 'i1'), (300, 'u1'), (200, 'i2'), (40000 if tier != 'quick' else 200, 'i2')):
